@@ -61,6 +61,7 @@ type RunResult struct {
 	Decoded    json.RawMessage `json:"decoded,omitempty"`
 	StateHash  string          `json:"state_hash,omitempty"`
 	JobParams  string          `json:"-"`
+	Sweep      string          `json:"sweep,omitempty"`
 }
 
 type ReplayFile struct {
@@ -86,6 +87,11 @@ type Job struct {
 	Mode   string
 	Params string
 	Share  float64
+	// Kind "" = seeded batch; "sweep" = crash sweep over every fs-operation index of the
+	// builds of fault-free histories (worker mode sweep)
+	Kind string
+	// ThoroughOnly jobs are skipped in the quick tier (their share is given to the others)
+	ThoroughOnly bool
 }
 
 // Plan describes how a property is checked.
@@ -298,6 +304,7 @@ type agg struct {
 	states     map[string]bool
 	viol       map[string][]RunResult // key prop|class|signature
 	perWorld   map[string]int
+	sweepPoints int
 	slowUS     int64
 	slowSeed   uint64
 	slowSteps  int
@@ -309,7 +316,14 @@ func newAgg() *agg {
 
 func (a *agg) add(r RunResult, params string) {
 	a.evals++
-	a.perWorld[r.World+"/"+r.Mode]++
+	if r.Sweep != "" {
+		a.perWorld[r.World+"/crash-sweep"]++
+		if r.Sweep != "probe" {
+			a.sweepPoints++
+		}
+	} else {
+		a.perWorld[r.World+"/"+r.Mode]++
+	}
 	if r.Nontrivial && r.Switches > 0 {
 		a.distinct[r.Shape+"|"+r.TraceHash] = true
 	}
@@ -340,6 +354,14 @@ func (a *agg) add(r RunResult, params string) {
 		if len(a.viol[key]) < 3 {
 			rr := r
 			rr.JobParams = params
+			if r.Sweep != "" {
+				// crash sweep: the crash position is part of the replay parameters
+				var inv, op, n int
+				rr.JobParams = params + ",mode=faults,focus=sweep"
+				if _, err := fmt.Sscanf(r.Sweep, "inv=%d,op=%d/%d", &inv, &op, &n); err == nil {
+					rr.JobParams += fmt.Sprintf(",sweep_inv=%d,sweep_op=%d", inv, op)
+				}
+			}
 			rr.Violations = []Violation{v}
 			a.viol[key] = append(a.viol[key], rr)
 		}
@@ -399,7 +421,22 @@ func check(prop, tier string) int {
 		log  string
 	}
 	var crashes []crashT
-	for ji, job := range plan.Jobs {
+	jobs := plan.Jobs
+	if tier != "thorough" {
+		var keep []Job
+		total := 0.0
+		for _, j := range jobs {
+			if !j.ThoroughOnly {
+				keep = append(keep, j)
+				total += j.Share
+			}
+		}
+		for i := range keep {
+			keep[i].Share /= total
+		}
+		jobs = keep
+	}
+	for ji, job := range jobs {
 		jobBudget := time.Duration(float64(budget)*job.Share*1000) * time.Millisecond
 		deadline := time.Now().Add(jobBudget)
 		var wg sync.WaitGroup
@@ -414,8 +451,12 @@ func check(prop, tier string) int {
 				for from := uint64(w); time.Now().Before(deadline); from += uint64(chunk * nw) {
 					outFile := filepath.Join(scratch, fmt.Sprintf("out-%d-%d.jsonl", ji, w))
 					os.Remove(outFile)
+					modeEnv := "SIM_MODE=batch"
+					if job.Kind == "sweep" {
+						modeEnv = "SIM_MODE=sweep"
+					}
 					env := []string{
-						"SIM_MODE=batch", "SIM_WORLD=" + job.World, "SIM_WMODE=" + job.Mode, "SIM_PARAMS=" + job.Params,
+						modeEnv, "SIM_WORLD=" + job.World, "SIM_WMODE=" + job.Mode, "SIM_PARAMS=" + job.Params,
 						fmt.Sprintf("SIM_SEED=%d", seed+uint64(ji)*1000003), fmt.Sprintf("SIM_FROM=%d", from), fmt.Sprintf("SIM_STRIDE=%d", nw),
 						fmt.Sprintf("SIM_COUNT=%d", chunk), fmt.Sprintf("SIM_DEADLINE_UNIX=%d", deadline.Unix()),
 					}
@@ -772,6 +813,7 @@ func writeEvidence(prop, tier string, seed uint64, plan Plan, a *agg, wallS, sim
 			"distinct_states":     len(a.states),
 			"runs_per_world":      a.perWorld,
 			"known_findings":      nKnown,
+			"crash_sweep_points":  a.sweepPoints,
 			"components": map[string]any{
 				"real": plan.Real,
 				"stub": plan.Stub,
